@@ -292,7 +292,7 @@ def check_bins(prog, rep):
         return
     lower = upper = None
     for c in comps:
-        l, r = inline(c.left), c.comparators[0]
+        l, r = inline(c.left), inline(c.comparators[0])
         lt, rt = _strip(dump(l)), _strip(dump(r))
         op = type(c.ops[0]).__name__
         if rt.startswith(B + "["):
